@@ -118,7 +118,7 @@ class State:
             return
         if data[0] == 0x22:
             did = int.from_bytes(data[1:3], "big")
-            parts = self.scripts.get(did, "R").split("|")
+            parts = self.scripts.get(did, "R").removeprefix("s:").split("|")
             k = self.tx_count.get(did, 0)
             self.tx_count[did] = k + 1
             for ch in parts[min(k, len(parts) - 1)]:
@@ -191,8 +191,13 @@ def make_scenario(item: tuple[Any, ...], box: dict[str, Any]) -> Any:
             for k, (did, _sc) in enumerate(reqs):
                 st.log.append(("begin", name, k))
                 try:
-                    r = await ecu.read_data_by_identifier(did)
-                    results[name].append(("ret", did, r.pdu))
+                    if _sc.startswith("s:"):  # a caller that skips the hooks (as the ping of wait_for_ecu does)
+                        r = await ecu.read_data_by_identifier(did, config=G["UDSRequestConfig"](skip_hooks=True))
+                    else:
+                        r = await ecu.read_data_by_identifier(did)
+                    box.setdefault("replies", []).append((name, did, r))
+                    tr = getattr(r, "trigger_request", None)
+                    results[name].append(("ret", did, r.pdu, tr.pdu.hex() if tr is not None else None))
                 except asyncio.CancelledError:
                     results[name].append(("cancelled", did))
                     st.log.append(("end", name, k))
@@ -254,6 +259,8 @@ def observe(box: dict[str, Any], run: Run) -> dict[str, Any]:
         "results": {k: list(v) for k, v in box["results"].items()},
         "cancelled": st.cancelled,
         "mutex_locked": box["ecu"].mutex.locked(),
+        # what each reply object names as its request once every caller has been served
+        "late_triggers": [(n, d, getattr(getattr(r, "trigger_request", None), "pdu", b"").hex()) for n, d, r in box.get("replies", [])],
         "t": run.loop.time(),
         "unfinished": sorted(n for n, t in st.tasks.items() if n != "tp" and not t.done()),
     }
@@ -314,6 +321,13 @@ def judge(item: tuple[Any, ...], obs: dict[str, Any], choices: list[int], res: R
         for r in rs:
             if r[0] == "ret":
                 did, pdu = r[1], r[2]
+                if len(r) > 3 and r[3] != f"22{did:04x}":
+                    res.violate(
+                        f"C05|foreign-reply|trigger-request-of-another-caller|to={_role(name)}",
+                        f"caller {name} asked for {did:#06x}; the reply object it was handed names the request {r[3]} as its trigger",
+                        rp,
+                    )
+                    return
                 if pdu[0] == 0x62:
                     got = int.from_bytes(pdu[1:3], "big")
                     if got != did:
@@ -329,6 +343,14 @@ def judge(item: tuple[Any, ...], obs: dict[str, Any], choices: list[int], res: R
                 elif pdu[0] not in (0x62, 0x7F):
                     res.violate(f"C05|foreign-reply|other-service|to={_role(name)}", f"caller {name} got {pdu.hex()}", rp)
                     return
+    for n, d, trig in obs.get("late_triggers", []):
+        if trig != f"22{d:04x}":
+            res.violate(
+                f"C05|foreign-reply|trigger-request-changed-later|to={_role(n)}",
+                f"caller {n} asked for {d:#06x}; after the other callers were served its reply object names the request {trig} as its trigger",
+                rp,
+            )
+            return
     if obs["mutex_locked"] and not item[2]:  # (the worker may legitimately be mid-exchange)
         res.violate("C05|mutex-left-locked", "client mutex still locked after all callers finished", rp)
 
@@ -441,6 +463,16 @@ def items(tier: str, seed: int) -> list[Any]:
             for worker in (False, True):
                 for order in ((0, 1), (1, 0)):
                     out.append(((callers, order, worker, False, 2 if sa == "B|B|R" else 1, True), bound, cap))
+    # a caller that skips the hooks while another one is in its pending phase; callers whose different requests get the same negative reply
+    for sa in ("PR", "PPR", "R"):
+        for sb in ("s:R", "s:PR"):
+            callers = (("A", (0x1001, sa)), ("B", (0x2002, sb)))
+            for order in ((0, 1), (1, 0)):
+                out.append(((callers, order, False, False, 0, True), bound, cap))
+    for sa, sb in (("N", "N"), ("N", "PN"), ("B", "B")):
+        callers = (("A", (0x1001, sa)), ("B", (0x2002, sb)), ("C", (0x3003, "N")))
+        out.append(((callers, (0, 1, 2), False, False, 0, False), 1, cap))
+        out.append(((callers[:2], (1, 0), True, False, 0, True), bound, cap))
     # four and five callers (bound 1; thorough: more script mixes and bound 2 on the four-caller case)
     many = [("R", "PR", "-", "R"), ("PR", "R", "R", "C")] if quick else [("R", "PR", "-", "R"), ("PR", "R", "R", "C"), ("-", "-", "R", "PR"), ("R", "R", "R", "R")]
     for sc in many:
